@@ -488,6 +488,9 @@ def real_parse_outcome(s: str):
         raise
     except ZeroDivisionError as e:
         return ("arith", type(e).__name__)
+    except AssertionError:
+        # an assertion inside SymPy's assumption machinery (or, were it the repo's, inside the parser): see assert_fail
+        return ("sympy-assert", "AssertionError")
     except ValueError as e:
         if str(e).startswith(_PARSER_MSG):
             return ("raised", "ValueError")
@@ -961,6 +964,71 @@ def _is_mod_of_product_with_mod(x) -> bool:
     return _has(dividend, lambda y: y[0] == "b" and y[1] == "mul" and _has(y, lambda z: z[0] == "b" and z[1] in ("mod", "fdiv")))
 
 
+def _den_factors(x):
+    """non-literal factors of the flattened denominator of a chain of true quotients: K / M / (N * 4) -> [M, N]"""
+    def factors(y):
+        if y[0] == "n":
+            return []
+        if y[0] == "u" and y[1] == "neg":
+            return factors(y[2])
+        if y[0] == "b" and y[1] == "mul":
+            return factors(y[2]) + factors(y[3])
+        if y[0] == "b" and y[1] == "div":
+            return factors(y[2])
+        return [y]
+
+    if x[0] == "u" and x[1] == "neg":
+        return _den_factors(x[2])
+    if x[0] == "b" and x[1] == "mul":
+        return _den_factors(x[2]) + _den_factors(x[3])
+    if x[0] == "b" and x[1] == "div":
+        return _den_factors(x[2]) + factors(x[3])
+    return []
+
+
+def _is_product_quotient(x) -> bool:
+    """a true quotient whose denominator is a product of at least two non-literal factors"""
+    return x[0] == "b" and x[1] == "div" and len(_den_factors(x)) >= 2
+
+
+def _is_sign_consumer(x) -> bool:
+    """an operation SymPy evaluates by deciding the sign of `number - operand`: Max, Min, %, //, floor, ceiling"""
+    return (x[0] == "b" and x[1] in ("max", "min", "mod", "fdiv")) or (x[0] == "u" and x[1] in ("floor", "ceil"))
+
+
+def sympy_assert_locus(t):
+    """smallest subtree whose construction with SymPy ALONE raises AssertionError, or None"""
+    if t is None:
+        return None
+    for x in _subtrees(t):
+        try:
+            sympy_ref_of_tree(x)
+        except AssertionError:
+            return x
+        except INFRA_EXC:
+            raise
+        except Exception:  # noqa: BLE001
+            pass
+    return None
+
+
+def assert_fail(P, channel: str, s: str, case, fallback_sig: str):
+    """The real parser died with an AssertionError while building SymPy objects for the text `s`.  Upstream (signature
+    `sympy-upstream:construction-assertion:<channel>:<ops>`) only when SymPy ALONE, building the standard reading of the text
+    with the documented operations, raises AssertionError too - the signature names the operators of the smallest
+    such subtree; otherwise it is the repo's parser that fails (`fallback_sig`)."""
+    try:
+        loc = sympy_assert_locus(py_tree(s))
+    except (TooBig, RecursionError):
+        loc = None
+    if loc is None:
+        P.fail(fallback_sig, f"text {s!r} makes the parser raise AssertionError; SymPy alone builds the same expression without", case)
+        return
+    P.count("sympy_upstream=construction-assertion:" + channel)
+    P.fail(f"sympy-upstream:construction-assertion:{channel}:{ops_sig(loc)}",
+           f"parsing {s[:200]!r} raises AssertionError inside SymPy; SymPy alone raises it for the subtree {json.dumps(loc)[:300]} [e.g. sympy.Mod(2, sympy.Rational(1, 4)**(-K))]", case)
+
+
 def sympy_defect_locus(t, env):
     """smallest subtree whose value SymPy alone (construction + subs) gets wrong under env; the
     whole tree when every subtree is right in isolation (order-of-substitution / simplify effects)"""
@@ -982,6 +1050,10 @@ def sympy_defect_class(t, env) -> str:
                              whose dividend contains a product with a % or // inside
       lattice-over-quotient  Max(3, 3/Max(x, z)) == 3/Max(x, z), Min(1, Max(a, b)/5) == 1: a Max/Min that has an operand
                              containing a quotient of / by a Max/Min
+      product-quotient-sign  (7/(M*N) - 2).is_positive is True for positive INTEGER symbols M, N (None for merely positive ones): a number
+                             minus c/(product of >= 2 integer symbols) is taken to be positive whenever c exceeds the number, so
+                             Max(7, 10/(M*N)) == 10/(M*N), Min(7, 10/(M*N)) == 7, Mod(2, 7/(M*N)) == 2, Mod(2, -7/(K*M*N)) == 2 - 7/(K*M*N):
+                             a Max / Min / % / // / floor / ceiling over a true quotient whose denominator has >= 2 non-literal factors
     anything else is 'unclassified' and is NOT covered by a known finding."""
     locus = sympy_defect_locus(t, env)
     if _has(locus, _is_sym_pow) and _has(locus, lambda x: x[0] in "ub" and x[1] in ("mod", "fdiv", "floor", "ceil")):
@@ -990,6 +1062,8 @@ def sympy_defect_class(t, env) -> str:
         return "Mod-of-product-with-Mod"
     if _has(locus, lambda x: _is_lattice(x) and _has(x, _is_quotient_with_lattice)):
         return "lattice-over-quotient"
+    if _has(locus, lambda x: _is_sign_consumer(x) and _has(x, _is_product_quotient)):
+        return "product-quotient-sign"
     return "unclassified"
 
 
@@ -1344,6 +1418,8 @@ class TreeCase:
                 if want is not None and got != fr(want):
                     vfail(P, "print-parse:value:" + _text_sig(self.value), f"SymbolicDim({self.value!r}).evaluate({env}) = {got}, exact value {fr(want)}", self.case_obj, got, (t, env), (py_tree(self.value), env))
                     break
+        elif self.reparse[0] == "sympy-assert":
+            assert_fail(P, "print-parse", self.value, self.case_obj, "print-parse:rejected:AssertionError:" + _text_sig(self.value))
         elif any(r is not None for r in self.ref):
             P.fail("print-parse:" + self.reparse[0] + ":" + _text_sig(self.value), f"SymbolicDim({self.value!r}) does not parse ({self.reparse[1]})", self.case_obj)
         self.reqs.append({"m": "sym.parse", "s": self.value, "envs": [envj(e) for e in self.envs]})
@@ -1715,6 +1791,9 @@ class TreeCase:
         lr = lean.get("r")
         if lr == "nonascii":
             return
+        if real_outcome[0] == "sympy-assert":
+            P.count("parse_compare=skipped-sympy-assert")  # reported by assert_fail; nothing to compare
+            return
         if real_outcome[0] == "raised":
             if lr != "raised":
                 P.disagree("real parser raises, Lean parser accepts", case, lean, real_outcome)
@@ -1765,6 +1844,8 @@ class StringCase:
             P.count("skipped=sqrt-with-comma")
             self.skip = True
             return
+        if self.outcome[0] == "sympy-assert":
+            assert_fail(P, "grammar", s, self.case_obj, "grammar:rejected:AssertionError:" + _text_sig(s))
         if ing and self.outcome[0] == "raised":
             P.fail("grammar:rejected:" + _text_sig(s), f"text {s!r} is in the documented grammar but the parser raises {self.outcome[1]}", self.case_obj)
         if not ing and self.outcome[0] == "ok":
@@ -1897,6 +1978,8 @@ class DerivCase:
         self.outcome = real_parse_outcome(s)
         self.real_struct = real_parse_structure(s) if self.outcome[0] == "ok" else None
         self.real_vals = [real_eval(self.outcome[1], e) for e in self.envs] if self.outcome[0] == "ok" else None
+        if self.outcome[0] == "sympy-assert":
+            assert_fail(P, "grammar", s, self.case_obj, "grammar:rejected:AssertionError:" + _text_sig(s))
         if self.outcome[0] == "raised":
             P.fail("grammar:rejected:" + _text_sig(s), f"sentence {s!r} of the documented grammar is rejected ({self.outcome[1]})", self.case_obj)
         self.reqs.append({"m": "sym.derive", "d": self.d, "envs": [envj(e) for e in self.envs]})
@@ -2664,7 +2747,7 @@ def _coverage_floors(ctx: Ctx, ntrees: int, nstrings: int) -> None:
     skipped_infra += sum(v for k, v in d.items() if k.startswith("skipped_in_compare="))
     floors = [
         ("tree cases evaluated", sum(v for k, v in d.items() if k.startswith("build=")), int(0.97 * ntrees)),
-        ("string cases evaluated", d.get("outcome=ok", 0) + d.get("outcome=raised", 0) + d.get("outcome=arith", 0), int(0.95 * nstrings)),
+        ("string cases evaluated", d.get("outcome=ok", 0) + d.get("outcome=raised", 0) + d.get("outcome=arith", 0) + d.get("outcome=sympy-assert", 0), int(0.95 * nstrings)),
         ("simplify() clauses checked", d.get("simplify=done", 0), base(150, 800)),
         ("Shape clauses checked", d.get("shape=done", 0), base(450, 2500)),
         ("serialize/deserialize clauses checked", d.get("serde=done", 0), base(450, 2500)),
